@@ -132,6 +132,9 @@ theorem Inv_congr {st st' : State} (f : Sess → Sess)
     exact ⟨o, by rw [hc]; exact ho1, by rw [(hf s0).1]; exact ho2⟩
   · rw [hm, hc]; exact h.openRes
 
+theorem Inv_pending {st : State} (ps : List Pend) (h : Inv st) : Inv { st with pending := ps } :=
+  ⟨h.sidsNodup, h.sidsLt, h.idsNodup, h.idsLt, h.owned, h.listedIn, h.openRes⟩
+
 theorem updSess_eq_map (sid : Nat) (f : Sess → Sess) (ss : List Sess) :
     updSess sid f ss = ss.map (fun s => if s.sid == sid then f s else s) := rfl
 
@@ -221,10 +224,9 @@ theorem Inv_addSession {st : State} (c : Option Nat) (t : Int) (cs : List Conn) 
 
 /-- `create-publisher` / `create-subscriber` succeeded for live session `sid`. -/
 theorem Inv_createObj {st : State} (sid : Nat) (isPub : Bool) (hs : ∃ s ∈ st.sessions, s.sid = sid) (h : Inv st) :
-    Inv { st with nextObj := st.nextObj + 1
-                  clients := st.clients ++ [{ id := st.nextObj, isPub := isPub, owner := sid }]
-                  mcuOpen := st.mcuOpen ++ [{ id := st.nextObj, isPub := isPub, owner := sid }]
-                  sessions := updSess sid (addOwned isPub st.nextObj) st.sessions } := by
+    Inv (storeObj st sid isPub) := by
+  unfold storeObj
+  simp only
   constructor
   · simp only [updSess_map_sid (addOwned_sid isPub st.nextObj)]; exact h.sidsNodup
   · intro s' hs'
@@ -562,6 +564,31 @@ theorem Inv_createObjStep {st : State} (c sid : Nat) (isPub : Bool) (o : Outcome
   | ok => exact Inv_createObj sid isPub hs h
   | fail => exact h
   | timeout => exact h
+  | late => exact Inv_pending _ h
+
+theorem lateStoreGuard_eq (b : Bool) : lateStoreGuard b = true := by cases b <;> decide
+
+theorem Inv_nextObj {st : State} (h : Inv st) : Inv { st with nextObj := st.nextObj + 1 } :=
+  ⟨h.sidsNodup, h.sidsLt, h.idsNodup, fun o ho => Nat.lt_succ_of_lt (h.idsLt o ho), h.owned, h.listedIn, h.openRes⟩
+
+theorem Inv_finishLate {st : State} (p : Pend) (o : Outcome) (h : Inv st) : Inv (finishLate st p o).1 := by
+  unfold finishLate
+  rw [lateStoreGuard_eq]
+  cases o with
+  | ok =>
+    simp only [finishLateWith]
+    cases hf : findSess st p.sid with
+    | none => exact Inv_nextObj h
+    | some s => exact Inv_createObj p.sid p.isPub ⟨s, (findSess_mem hf).1, (findSess_mem hf).2⟩ h
+  | fail => exact h
+  | timeout => exact h
+  | late => exact Inv_pending _ h
+
+theorem Inv_doRelease {st : State} (c : Nat) (o : Outcome) (h : Inv st) : Inv (doRelease st c o).1 := by
+  unfold doRelease
+  split
+  · exact h
+  · exact Inv_finishLate _ _ (Inv_pending _ h)
 
 theorem Inv_deleteObjStep {st : State} (c : Nat) (s : Sess) (isPub : Bool) (id : Nat)
     (hs : ∃ s0 ∈ st.sessions, s0.sid = s.sid ∧ s0.pubs = s.pubs ∧ s0.subs = s.subs) (h : Inv st) :
@@ -649,8 +676,15 @@ theorem Inv_doMsg {cfg : Cfg} {st : State} (c : Nat) (m : Msg) (h : Inv st) : In
 theorem Inv_step {cfg : Cfg} {st : State} (op : Op) (h : Inv st) : Inv (step cfg st op).1 := by
   cases op with
   | connect c =>
-    exact Inv_conns _ h
-  | msg c m => exact Inv_doMsg c m h
+    simp only [step]
+    split
+    · exact h
+    · exact Inv_conns _ h
+  | msg c m =>
+    simp only [step]
+    split
+    · exact h
+    · exact Inv_doMsg c m h
   | close c =>
     simp only [step]
     split
@@ -658,12 +692,15 @@ theorem Inv_step {cfg : Cfg} {st : State} (op : Op) (h : Inv st) : Inv (step cfg
     · split
       · exact h
       · split
-        · exact Inv_markUsed _ _ (Inv_conns _ h)
-        · exact Inv_conns _ h
+        · exact h
+        · split
+          · exact Inv_markUsed _ _ (Inv_conns _ h)
+          · exact Inv_conns _ h
   | sleep d => exact Inv_doSleep d h
   | expire => exact Inv_closeAll _ h
   | mcuDown => exact Inv_mcuDownAll _ h
   | mcuClose id => exact Inv_doMcuClose id h
+  | release c o => exact Inv_doRelease c o h
 
 theorem Inv_run {cfg : Cfg} {st : State} (ops : List Op) (h : Inv st) : Inv (run cfg st ops) := by
   induction ops generalizing st with
@@ -759,11 +796,33 @@ theorem SidsSub_mcuDownAll (st : State) (l : List Nat) : SidsSub st (mcuDownAll 
   | nil => exact SidsSub.refl _
   | cons sid rest ih => exact (SidsSub_clearSess st sid _ _).trans (ih _)
 
+theorem SidsSub_storeObj (st : State) (sid : Nat) (b : Bool) : SidsSub st (storeObj st sid b) :=
+  SidsSub_of_eq (sids_updSess (addOwned_sid _ _)) rfl
+
 theorem SidsSub_createObj (st : State) (c sid : Nat) (b : Bool) (o : Outcome) : SidsSub st (createObj st c sid b o).1 := by
   cases o with
-  | ok => exact SidsSub_of_eq (sids_updSess (addOwned_sid _ _)) rfl
+  | ok => exact SidsSub_storeObj _ _ _
   | fail => exact SidsSub.refl _
   | timeout => exact SidsSub.refl _
+  | late => exact SidsSub.refl _
+
+theorem SidsSub_finishLate (st : State) (p : Pend) (o : Outcome) : SidsSub st (finishLate st p o).1 := by
+  unfold finishLate
+  cases o with
+  | ok =>
+    simp only [finishLateWith]
+    split
+    · exact SidsSub_storeObj _ _ _
+    · split <;> exact SidsSub.refl _
+  | fail => exact SidsSub.refl _
+  | timeout => exact SidsSub.refl _
+  | late => exact SidsSub.refl _
+
+theorem SidsSub_doRelease (st : State) (c : Nat) (o : Outcome) : SidsSub st (doRelease st c o).1 := by
+  unfold doRelease
+  split
+  · exact SidsSub.refl _
+  · exact SidsSub.trans (SidsSub.refl _ : SidsSub st { st with pending := _ }) (SidsSub_finishLate _ _ _)
 
 theorem SidsSub_deleteObj (st : State) (c : Nat) (s : Sess) (b : Bool) (id : Nat) :
     SidsSub st (deleteObj st c s b id).1 := by
@@ -864,7 +923,10 @@ theorem step_sids (cfg : Cfg) (st : State) (op : Op) :
     (∃ c t, op = .msg c (.hello (.token t)) ∧ parseToken cfg st.now t = none ∧
       sids (step cfg st op).1 = sids st ++ [st.nextSid] ∧ (step cfg st op).1.nextSid = st.nextSid + 1) := by
   cases op with
-  | connect c => exact Or.inl (SidsSub.refl _)
+  | connect c =>
+    simp only [step]
+    split <;> exact Or.inl (SidsSub.refl _)
+  | release c o => exact Or.inl (SidsSub_doRelease _ _ _)
   | close c =>
     left
     simp only [step]
@@ -873,14 +935,18 @@ theorem step_sids (cfg : Cfg) (st : State) (op : Op) :
     · split
       · exact SidsSub.refl _
       · split
-        · exact SidsSub_of_eq (sids_updSess (fun _ => rfl)) rfl
         · exact SidsSub.refl _
+        · split
+          · exact SidsSub_of_eq (sids_updSess (fun _ => rfl)) rfl
+          · exact SidsSub.refl _
   | sleep d => exact Or.inl (SidsSub_foldl_ping st _ _ |> fun h => ⟨h.1, h.2⟩)
   | expire => exact Or.inl (SidsSub_closeAll _ _)
   | mcuDown => exact Or.inl (SidsSub_mcuDownAll _ _)
   | mcuClose id => exact Or.inl (SidsSub_doMcuClose _ _)
   | msg c m =>
     simp only [step]
+    split
+    · exact Or.inl (SidsSub.refl _)
     unfold doMsg
     split
     · exact Or.inl (SidsSub.refl _)
@@ -968,6 +1034,10 @@ theorem created_owned (cfg : Cfg) (st : State) (c : Nat) (m : Msg) (c' id : Nat)
   have no : ∀ {o : Outs}, NoCreated o → (c', SMsg.created id) ∈ o → False :=
     fun hn hm => hn _ hm id rfl
   simp only [step] at h ⊢
+  by_cases hb : isBusy st c = true
+  · simp [hb] at h
+  have hb' : isBusy st c = false := by simpa using hb
+  simp only [hb', Bool.false_eq_true, if_false] at h ⊢
   unfold doMsg at h ⊢
   cases hf : findConn st c with
   | none => simp [hf] at h
@@ -1007,9 +1077,10 @@ theorem created_owned (cfg : Cfg) (st : State) (c : Nat) (m : Msg) (c' id : Nat)
             | ok =>
               simp [createObj] at ho
               obtain ⟨rfl, rfl⟩ := ho
-              exact ⟨rfl, x, s.sid, b, rfl, hxs, by simp [createObj], by simp [createObj]⟩
+              exact ⟨rfl, x, s.sid, b, rfl, hxs, by simp [createObj, storeObj, markUsed], by simp [createObj, storeObj, markUsed]⟩
             | fail => exact (no (NoCreated_errOut _ _) ho).elim
             | timeout => exact (no (NoCreated_errOut _ _) ho).elim
+            | late => simp [createObj] at ho
           cases m with
           | createPub o => exact crt true o h
           | createSub o => exact crt false o h
